@@ -36,7 +36,11 @@ impl ProgramLines {
     }
 
     pub fn after(&self, line: u64) -> Option<u64> {
-        self.sorted_line_numbers.range(line + 1..).next().copied()
+        use std::ops::Bound::{Excluded, Unbounded};
+        self.sorted_line_numbers
+            .range((Excluded(line), Unbounded))
+            .next()
+            .copied()
     }
 
     pub fn has(&self, line_number: u64) -> bool {
